@@ -19,7 +19,7 @@ VERIFICATION_MSG = re.compile(
     r'postcondition not satisfied|precondition not satisfied|precondition not met|assertion failed|assertion not satisfied|index out of bounds|invariant not satisfied|'
     r'decreases not satisfied|could not prove termination|possible arithmetic|possible division by zero|'
     r'possible bit shift|loop invariant|cannot show invariant|not all paths|'
-    r'failed to prove|constructed value may fail to meet its declared type invariant|'
+    r'failed to prove|unable to prove|constructed value may fail to meet its declared type invariant|'
     r'may be out of range|panic')
 PANIC_MSG = re.compile(r'possible arithmetic|possible division by zero|possible bit shift|may be out of range')
 TERMINATION_MSG = re.compile(r'decreases not satisfied|could not prove termination')
@@ -38,9 +38,9 @@ class Clause:
     def __init__(self, cid, kind, text, fn, unit):
         self.id, self.kind, self.text, self.fn, self.unit = cid, kind, text, fn, unit
 
-    def prop(self, primary):
-        m = re.match(r'(C\d\d)\.', self.id)
-        return m.group(1) if m else primary
+    def props(self, primary):
+        m = re.match(r'((?:C\d\d\+)*C\d\d)\.', self.id)
+        return m.group(1).split('+') if m else [primary]
 
 
 def parse_directive_lines(lines):
@@ -662,7 +662,7 @@ def run_unit(uid, tier='quick', repo=REPO, keep=None, seed=0):
         an = analyse(u, gen_path, gen, res)
         r.update(props=u.props, primary=u.primary, cmd=res['cmd'], verified=an['verified'], errors=an['errors'],
                  failed=an['failed'], panic=an['panic'], termination=an['termination'],
-                 clauses={c.id: dict(kind=c.kind, text=c.text, fn=c.fn, prop=c.prop(u.primary)) for c in u.clauses.values()},
+                 clauses={c.id: dict(kind=c.kind, text=c.text, fn=c.fn, props=c.props(u.primary)) for c in u.clauses.values()},
                  items=u.items, fns=u.fns_under_contract, per_function=per_function(res),
                  assumptions=scan_assumptions(gen, uid), transforms=u.transforms, lemmas=u.lemmas,
                  has_replay=u.has_replay, external_auto=u.external_auto, gen_lines=gen.count('\n') + 1)
